@@ -273,7 +273,7 @@ Proof.
     try (destr; first [exact HF | (apply Q; qh)]; fail).
   - pose proof (quiet_inst t y s) as Qi. destruct (inst t y s) as [y' s1]. cbn [snd] in Qi.
     destruct (get_task t s1) as [tk|]; cbn [c_st]; [|apply Q; exact Qi].
-    destruct (tk_deps tk ++ futs (extract y')); cbn [c_st]; apply Q; (eapply quiet_trans; [exact Qi|]); qh.
+    destruct (futs (extract y')); cbn [c_st]; apply Q; (eapply quiet_trans; [exact Qi|]); qh.
   - pose proof (quiet_create t f s) as Qi. destruct (create t f s) as [h s1]. cbn [snd c_st] in *. apply Q. exact Qi.
 Qed.
 
